@@ -31,7 +31,11 @@ def run(ctx):
                "per end), as LDBC prescribes for directed graphs; the reported iteration count is only required to be <= k and "
                "consistent with the labelling",
                "parallel code paths (n >= 1000) are reached with ceil(1000/n) disjoint copies of each small graph under rayon pools "
-               "of 1 and 8 threads (UnionLemma: score/k per copy, the copy's own labels); 2 copies are the sequential control")
+               "of 1 and 8 threads (UnionLemma, model-checked for k = 2, 3: score/k per copy, the copy's own labels); the thorough tier adds "
+               "2 copies as the sequential control",
+               "the tolerance is the L1 change of one iteration (as pagerank.rs documents and computes it); an iteration stops when "
+               "the change is strictly below it",
+               "5/6-node multigraphs from TLC -simulate are limited to 2 PageRank iterations (32-bit TLC integers)")
     scripts = A.graphs(ctx, fams, "all")
     pscripts = A.graphs(ctx, pfam, "proj")
     walks = A.mid_graphs(ctx, 40 if q else 400, 10 if q else 150, w="{1}")
